@@ -897,7 +897,8 @@ func c08Findings(t *testing.T, st *VStream, stats *VStats, log *logrus.Logger) {
 		w.insn(t0, ka, "a.test.", 1, 5, 1, 1, 0, 0)
 		w.look(t0+10*c08Sec, ka, "a.test", 1, false) // stale, refresh requested
 		w.rdone(t0+11*c08Sec, ka, "a.test", 1)       // the refresh ends without a new answer
-		w.look(t0+12*c08Sec, ka, "a.test", 1, false) // still inside the 60 s window
+		w.look(t0+12*c08Sec, ka, "a.test", 1, false) // still inside the 60 s window: served, next refresh requested
+		w.look(t0+13*c08Sec, ka, "a.test", 1, false) // served, that refresh is in flight
 		st.Emit("note failed-refresh end", "note")
 	})
 }
